@@ -1,5 +1,6 @@
 /-
-C10 — source tie (see Props/C03Src.lean for what that is): the guards in front of the forced close of a perpetual position through the
+C10 — source tie (see Props/C03Src.lean for what that is): the guards in front of the forced close of a leveraged-LP position (liquidation, stop loss:
+x/leveragelp/keeper/begin_blocker.go) and of a perpetual position through the
 stop-loss and the take-profit lists, x/perpetual/keeper/process_mtp.go `CheckAndCloseAtStopLoss` / `CheckAndCloseAtTakeProfit` — the
 longest prefix of each function the translator understands, i.e. everything before `ForceCloseLong/Short`.  The model's `allowed` (on
 which the C10 theorems are stated) is what the source says now, for every position and every price.
@@ -7,6 +8,8 @@ Property theorems only.
 -/
 import ElysModel.Gen.Arith.perpStopLossGuards
 import ElysModel.Gen.Arith.perpTakeProfitGuards
+import ElysModel.Gen.Arith.lpLiquidateGuards
+import ElysModel.Gen.Arith.lpStopLossGuards
 import ElysModel.Gen.Arith.Table
 import ElysModel.Close.Model
 namespace Elys.Close.C10Src
@@ -38,6 +41,33 @@ theorem gen_perp_no_price (bc : String) (p pos x : Int) :
     Gen.Arith.perpStopLossGuards bc p true pos x ≠ .ok true ∧ Gen.Arith.perpTakeProfitGuards bc p true pos x ≠ .ok true := by
   unfold Gen.Arith.perpStopLossGuards Gen.Arith.perpTakeProfitGuards
   constructor <;> simp
+
+/-- leveraged-LP liquidation (x/leveragelp/keeper/begin_blocker.go `CheckAndLiquidateUnhealthyPosition`, everything in front of the cache
+context of the forced close): let through exactly when the position is NOT above the safety factor and owes something. -/
+theorem gen_lp_liquidate (v : View) (liab : Int) (hm : v.module = .lp) (hl : v.liabZero = decide (liab = 0)) :
+    (Gen.Arith.lpLiquidateGuards v.health false v.safety liab = .ok true) ↔ allowed v .liquidate = true := by
+  unfold Gen.Arith.lpLiquidateGuards allowed
+  by_cases h1 : v.health > v.safety <;> by_cases h2 : liab = 0 <;> simp [hm, hl, h1, h2, pure, Except.pure]
+
+/-- leveraged-LP stop loss (`CheckAndCloseAtStopLoss`): let through exactly when the lp token price is at or below the stop loss. -/
+theorem gen_lp_stopLoss (v : View) (h : Int) (hm : v.module = .lp) :
+    (Gen.Arith.lpStopLossGuards h false v.price false v.stopLoss = .ok true) ↔ allowed v .stopLoss = true := by
+  unfold Gen.Arith.lpStopLossGuards allowed
+  by_cases h1 : v.price ≤ v.stopLoss <;> simp [hm, h1, pure, Except.pure]
+
+/-- when the health or the lp token price cannot be computed, nothing is closed. -/
+theorem gen_lp_no_reading (h sf liab pr sl : Int) (e : Bool) :
+    Gen.Arith.lpLiquidateGuards h true sf liab ≠ .ok true ∧ Gen.Arith.lpStopLossGuards h true pr e sl ≠ .ok true ∧
+    Gen.Arith.lpStopLossGuards h false pr true sl ≠ .ok true := by
+  unfold Gen.Arith.lpLiquidateGuards Gen.Arith.lpStopLossGuards
+  refine ⟨?_, ?_, ?_⟩ <;> simp
+
+/-- what the leveraged-LP guards read. -/
+theorem gen_free_lp_guards :
+    Gen.Arith.freeOf "lpLiquidateGuards" = ["#0.GetPositionHealth(#1, #2)", "#0.GetPositionHealth(#1, #2)#err", "#0.GetParams(#1).SafetyFactor",
+      "#0.stableKeeper.UpdateInterestAndGetDebt(#1, #2.GetPositionAddress()).GetTotalLiablities()"] ∧
+    Gen.Arith.freeOf "lpStopLossGuards" = ["#0.GetPositionHealth(#1, #2)", "#0.GetPositionHealth(#1, #2)#err",
+      "#4.LpTokenPrice(#1, #0.oracleKeeper, #0.accountedPoolKeeper)", "#4.LpTokenPrice(#1, #0.oracleKeeper, #0.accountedPoolKeeper)#err", "#2.StopLossPrice"] := by decide
 
 /-- what the guards read: the trading asset's price, the position's side and its own trigger price — not its health, not its owner. -/
 theorem gen_free_perp_guards :
